@@ -5,8 +5,8 @@
 //     comments in packages.h; count 25/26 and weight 404,000/404,001 edges.
 // (b) every sequence over the 6 real transactions x mempool state {empty, parent present, twin present, conflicting
 //     tx present, full with cheap fillers, full with expensive fillers} x fee profile {P1 pays, P1 pays nothing and
-//     needs CH} x {submit, test_accept}: ProcessNewPackage on a real regtest node (ck::Node), one fork()ed process per
-//     case. Oracle: ill-formed (reference predicate) => package-wide PCKG_POLICY error, no per-tx result, pool
+//     needs CH} x {submit, test_accept}: ProcessNewPackage on a real regtest node (ck::Node), one process per
+//     (pool state, profile) group, pool restored after every case. Oracle: ill-formed (reference predicate) => package-wide PCKG_POLICY error, no per-tx result, pool
 //     unchanged; afterwards no package tx is in the pool while an in-package parent is absent; every per-tx result is
 //     keyed by a package wtxid and matches pool membership (txid for a different-witness twin); test_accept never
 //     changes the pool; CTxMemPool::check passes.
@@ -313,6 +313,7 @@ static std::string run_case(World& w, const Group& g, const std::vector<int>& se
     for (auto& t : p) {
         auto it = res.m_tx_results.find(t->GetWitnessHash());
         sig += it == res.m_tx_results.end() ? "-" : u((int)it->second.m_result_type);
+        if (it != res.m_tx_results.end() && it->second.m_result_type == MempoolAcceptResult::ResultType::INVALID && it->second.m_state.GetRejectReason() == "mempool full") sig += "F";
         sig += after.count(t->GetWitnessHash().ToUint256()) ? "m" : pool.exists(t->GetHash()) ? "t" : ".";
     }
     for (auto& h : before) if (!after.count(h)) { sig += "|evicted"; break; }
@@ -381,55 +382,87 @@ static std::string run_case(World& w, const Group& g, const std::vector<int>& se
     return "";
 }
 
-// One process per group; inside, one fork()ed process per sequence. Writes a summary to fd `out`.
+// Restore the pool to the group's initial state after a case: remove everything that is not part of the initial
+// state, reset the rolling minimum fee (private state; -fno-access-control), re-add initial transactions that were
+// evicted or replaced. Returns "" or an error.
+struct InitialState {
+    std::vector<CTransactionRef> txs;   // in submission order
+    std::set<uint256> wtxids;
+    int64_t last_update{0};
+    bool block_since{false};
+    double rolling{0};
+};
+static std::string restore(World& w, const InitialState& init)
+{
+    CTxMemPool& pool = w.n->pool();
+    {
+        LOCK2(cs_main, pool.cs);
+        for (auto& info : pool.infoAll()) // infoAll takes the (recursive) pool lock itself
+            if (!init.wtxids.count(info.tx->GetWitnessHash().ToUint256()) && pool.exists(info.tx->GetWitnessHash())) pool.removeRecursive(*info.tx, MemPoolRemovalReason::REPLACED);
+        pool.rollingMinimumFeeRate = init.rolling;
+        pool.blockSinceLastRollingFeeBump = init.block_since;
+        pool.lastRollingFeeUpdate = init.last_update;
+    }
+    for (auto& t : init.txs)
+        if (!pool.exists(t->GetWitnessHash())) {
+            auto res = w.n->SubmitTx(t);
+            if (res.m_result_type != MempoolAcceptResult::ResultType::VALID) return "cannot re-add initial transaction: " + res.m_state.GetRejectReason();
+        }
+    {
+        LOCK(pool.cs);
+        pool.rollingMinimumFeeRate = init.rolling;
+        pool.blockSinceLastRollingFeeBump = init.block_since;
+        pool.lastRollingFeeUpdate = init.last_update;
+    }
+    if (pool_wtxids(pool) != init.wtxids) return "pool membership differs from the initial state after restoring";
+    return "";
+}
+
+// One process per group. Cases run in-process; the pool is restored to the group's initial state after each case
+// (a fork per case costs > 100 ms of CPU on the shared machine). "B" lines name the case being started, so that an
+// abort inside validation code can be attributed by the root.
 static void group_main(const Group& g, int64_t max_pool_bytes, int maxlen, const std::vector<int>& extra, int out)
 {
     World w;
     FILE* f = fdopen(out, "w");
+    setvbuf(f, nullptr, _IOLBF, 0);
     double t_a = vx::elapsed();
     std::string e = w.Setup(g, max_pool_bytes);
     if (!e.empty()) { fprintf(f, "H\t%s\n", e.c_str()); fclose(f); _exit(0); }
-    if (getenv("C29_TIMING")) fprintf(stderr, "[C29 timing] group %s/%d setup %.2fs\n", STNAME[g.state], g.profile, vx::elapsed() - t_a);
+    InitialState init;
+    {
+        CTxMemPool& pool = w.n->pool();
+        if (g.state == PARENT) init.txs = {w.U.tx[P2]};
+        if (g.state == TWIN) init.txs = {w.U.tx[T]};
+        if (g.state == CONFLICT) init.txs = {w.U.tx[X]};
+        if (g.state == FULL_CHEAP || g.state == FULL_RICH) init.txs = w.U.fillers;
+        init.wtxids = pool_wtxids(pool);
+        LOCK(pool.cs);
+        init.rolling = pool.rollingMinimumFeeRate;
+        init.block_since = pool.blockSinceLastRollingFeeBump;
+        init.last_update = pool.lastRollingFeeUpdate;
+        if (init.wtxids.size() != init.txs.size()) { fprintf(f, "H\tinitial pool state has %zu transactions, expected %zu\n", init.wtxids.size(), init.txs.size()); fclose(f); _exit(0); }
+    }
     uint64_t ncases = 0, nviol = 0;
     std::set<std::string> sigs, vkeys;
     bool incomplete = false;
     std::vector<int> idx;
     std::function<void()> rec_leaf = [&] {
-        if (!idx.empty() && !incomplete) {
-            if (vx::deadline_reached()) { incomplete = true; return; }
-            int pfd[2];
-            if (pipe(pfd) != 0) { fprintf(f, "H\tpipe failed\n"); fclose(f); _exit(0); }
-            fflush(f);
-            pid_t pid = fork();
-            if (pid == 0) {
-                close(pfd[0]);
-                std::string sig;
-                std::string r = run_case(w, g, idx, sig);
-                std::string msg = (r.empty() ? "OK\t" + sig : "V\t" + r) + "\n";
-                if (write(pfd[1], msg.data(), msg.size()) < 0) {}
-                _exit(0);
-            }
-            close(pfd[1]);
-            std::string got;
-            char buf[4096];
-            ssize_t k;
-            while ((k = read(pfd[0], buf, sizeof buf)) > 0) got.append(buf, k);
-            close(pfd[0]);
-            int status = 0;
-            waitpid(pid, &status, 0);
-            ncases++;
-            std::string name;
-            for (int i : idx) name += std::string(TXNAME[i]) + " ";
-            if (!WIFEXITED(status) || WEXITSTATUS(status) != 0 || got.empty()) {
-                std::string key = std::string("process-died-") + STNAME[g.state];
-                if (vkeys.insert(key).second) fprintf(f, "V\t%s\tnode process died (status %d) while processing package [%s] pool=%s profile=%d%s (assertion inside validation/mempool code)\n", key.c_str(), status, name.c_str(), STNAME[g.state], g.profile, g.test_accept ? " test_accept" : "");
-                nviol++;
-            } else if (got.rfind("V\t", 0) == 0) {
-                std::string key = got.substr(2, got.find('\t', 2) - 2);
-                if (vkeys.insert(key).second && vkeys.size() <= 12) fputs(got.c_str(), f);
-                nviol++;
-            } else sigs.insert(got.substr(3, got.size() - 4));
-        }
+        if (idx.empty() || incomplete) return;
+        if (vx::deadline_reached()) { incomplete = true; return; }
+        std::string name;
+        for (int i : idx) name += std::string(TXNAME[i]) + " ";
+        fprintf(f, "B\t%s\n", name.c_str());
+        std::string sig;
+        std::string r = run_case(w, g, idx, sig);
+        ncases++;
+        if (!r.empty()) {
+            std::string key = r.substr(0, r.find('\t'));
+            if (vkeys.insert(key).second && vkeys.size() <= 12) fprintf(f, "V\t%s\n", r.c_str());
+            nviol++;
+        } else sigs.insert(sig);
+        std::string re = restore(w, init);
+        if (!re.empty()) { fprintf(f, "H\trestore after [%s]: %s\n", name.c_str(), re.c_str()); fclose(f); _exit(0); }
     };
     std::function<void()> rec = [&] {
         rec_leaf();
@@ -443,11 +476,7 @@ static void group_main(const Group& g, int64_t max_pool_bytes, int maxlen, const
         }
     };
     rec();
-    if (getenv("C29_TIMING")) {
-        struct rusage ru; getrusage(RUSAGE_CHILDREN, &ru);
-        fprintf(stderr, "[C29 timing] group %s/%d %llu cases done at %.2fs; children cpu user %.2fs sys %.2fs\n", STNAME[g.state], g.profile, (unsigned long long)ncases, vx::elapsed() - t_a,
-                ru.ru_utime.tv_sec + ru.ru_utime.tv_usec / 1e6, ru.ru_stime.tv_sec + ru.ru_stime.tv_usec / 1e6);
-    }
+    if (getenv("C29_TIMING")) fprintf(stderr, "[C29 timing] group %s/%d %llu cases done at %.2fs (setup incl.)\n", STNAME[g.state], g.profile, (unsigned long long)ncases, vx::elapsed() - t_a);
     for (auto& s : sigs) fprintf(f, "G\t%s\n", s.c_str());
     fprintf(f, "S\t%" PRIu64 "\t%" PRIu64 "\t%d\n", ncases, nviol, incomplete ? 1 : 0);
     fclose(f);
@@ -530,9 +559,11 @@ int main(int argc, char** argv)
         int st; waitpid(r.pid, &st, 0);
         const Group& g = groups[r.gi];
         bool summary = false;
+        std::string last_begun;
         std::istringstream is(s);
         std::string line;
         while (std::getline(is, line)) {
+            if (line.rfind("B\t", 0) == 0) { last_begun = line.substr(2); continue; }
             if (line.rfind("V\t", 0) == 0) {
                 size_t t = line.find('\t', 2);
                 vx::violation(line.substr(2, t - 2), line.substr(t + 1), line.substr(t + 1));
@@ -545,6 +576,8 @@ int main(int argc, char** argv)
                 while (std::getline(ps, tok, '|')) parts.push_back(tok);
                 if (parts.size() >= 5) {
                     if (parts[2] != "ok") sig_flags["illformed:" + parts[2]]++;
+                    if (parts[4].find('F') != std::string::npos) sig_flags["evicted-after-acceptance(mempool full)"]++;
+                    if (parts.size() >= 6 && parts[5] == "evicted") sig_flags["pool-transactions-evicted-or-replaced"]++;
                     for (char c : parts[4]) { if (c >= '0' && c <= '3') sig_flags[std::string("result:") + c]++; }
                     if (parts[2] == "ok" && parts[3] == "1" && parts[4].find('0') != std::string::npos && parts[0] != "") sig_flags["package-accepted"]++;
                     if (g.profile == 1 && parts[2] == "ok" && parts[3] == "1" && !g.test_accept) sig_flags["cpfp-profile-accepted"]++;
@@ -558,7 +591,13 @@ int main(int argc, char** argv)
                 exit(2);
             }
         }
-        if (!summary) { printf("HARNESS-ERROR property=C29 group %s/%d died (status %d)\n", STNAME[g.state], g.profile, st); exit(2); }
+        if (!summary) {
+            // the node process died: attribute it to the case it had announced last (assert/abort inside validation or mempool code)
+            if (!last_begun.empty() && WIFSIGNALED(st)) {
+                vx::violation(std::string("process-died-") + STNAME[g.state] + "-profile" + u(g.profile), "node process died (signal " + u(WTERMSIG(st)) + ") while processing package [" + last_begun + "] pool=" + STNAME[g.state] + " profile=" + u(g.profile) + (g.test_accept ? " test_accept" : ""), last_begun);
+                incomplete = true;
+            } else { printf("HARNESS-ERROR property=C29 group %s/%d died (status %d)\n", STNAME[g.state], g.profile, st); exit(2); }
+        }
     };
     while (next < groups.size() || !running.empty()) {
         while (next < groups.size() && running.size() < maxpar) {
@@ -604,7 +643,7 @@ int main(int argc, char** argv)
     E.exhaustive = !incomplete;
     E.rule = "(a) every sequence of length 1.." + u(big ? 5 : 4) + " over 7 transactions (P1,P2,P3(P1),CH(P1,P2,P3),X conflicts with P2,T twin of P1,Z no inputs) through the 5 context-free predicates vs reference predicates, "
              "count 24..27 and weight 403999..404004 edges; (b) every sequence of length 1.." + u(big ? 4 : 3) + " over the 6 real transactions plus every sequence of length " + u(big ? 5 : 4) + (big ? " over {P1,P2,P3,CH,T}" : " over {P1,P2,P3,CH} (empty and full-rich pools)") + " x pool state x fee profile x submit/test_accept "
-             "through ProcessNewPackage on a regtest node, one forked process per case. distinct = predicate verdict classes + distinct (state, profile, well-formedness class, package verdict, per-tx result/membership) signatures";
+             "through ProcessNewPackage on a regtest node (one process per group, pool restored to the group's initial state after every case). distinct = predicate verdict classes + distinct (state, profile, well-formedness class, package verdict, per-tx result/membership) signatures";
     E.assume("the universe is one fixed dependency DAG (one child with three parents, one parent depending on another, one conflict pair, one same-txid twin); packages over other topologies (grandparents beyond one level, 25-transaction packages through ProcessNewPackage) are not enumerated");
     E.sample("signatures: " + flags.substr(0, 300));
     if (!incomplete && !vx::rep().violations) {
